@@ -72,7 +72,7 @@ TABLE = [
      {'config': cfg(allow=['imap-loss']),
       'ops': [['imap', ['id'], 3, 1, True, True], ['run', 0], ['tjob', 0, None],
               ['hterm', 0, -15], ['tick']]}),
-    ('D6b-late-ready-uncredited', 'C09', 'sim', 'open', None,
+    ('D6b-late-ready-uncredited', 'C09', 'sim', 'fixed', '920d368',
      'C09/held-up/late-ready',
      'a READY for a job that already left the cache (later chunks of a failed '
      'map, a result after a limit/lost failure, a discarded job) credits nobody '
@@ -80,10 +80,14 @@ TABLE = [
      'guard when it recycles',
      {'config': cfg(procs=4, maxtasks=2, putlocks=True),
       'ops': [['map', ['raise_if', [11, 4], 'KeyError'], 9, None, True, True]]}),
-    ('D6b-late-ready-uncredited', 'C07', 'sim', 'open', None,
+    ('D6b-results-unread-at-shutdown', 'C07', 'sim', 'open', None,
      'C07/guard-waited/late-ready',
-     'a READY for a job that already left the cache credits nobody: join() after '
-     'a failed map waits out the workers\' 30 s result-consumption guard',
+     'the result handler stops reading as soon as the cache is empty: after '
+     'close(), the results of the remaining chunks of a map that has already '
+     'failed (its handle left the cache) are never consumed, so those workers '
+     'sit out their 30 s result-consumption guard and join() takes that long '
+     '(the other facet of D6b - results consumed but not credited - was repaired '
+     'in 920d368)',
      {'config': cfg(procs=4),
       'ops': [['map', ['raise_if', [8, 1, 6, 10], 'CustomError'], 12, None,
                False, False], ['close']]}),
